@@ -334,6 +334,38 @@ def work_chain(bins, seed, idx, tmp):
                 if not others or not repo.merge(rng.choice(others)):
                     continue
             observe()
+        # GitFlow bookkeeping: a line forked before the tag takes the tagged line in with --no-ff, so the
+        # only commit after the tag is a merge commit
+        if rng.random() < 0.5 and repo.head[0] == "branch":
+            cur = repo.head[1]
+            old = rng.choice(sorted(repo.anc(repo.head_cid())))
+            name = "main2" if "main2" not in repo.branches else "main3"
+            if repo.branch(name, old):
+                branches.append(name)
+                repo.checkout(name)
+                if repo.merge(cur, force_noff=True):
+                    st["chain_bookkeeping_merges"] = st.get("chain_bookkeeping_merges", 0) + 1
+                    observe()
+                    if rng.random() < 0.5:
+                        repo.checkout(cur)
+                        repo.commit()
+                        repo.checkout(name)
+                        if repo.merge(cur, force_noff=True):
+                            observe()
+        # linked worktrees (.git is a file there): checked out exactly at a tag and at the current head
+        import subprocess as _sp
+        saved = (repo.head, repo.path)
+        try:
+            for k, cid in enumerate([rng.choice(repo.tags)["cid"], repo.head_cid()]):
+                wt = os.path.join(home, "linked%d" % k)
+                rr = _sp.run([core.REAL_GIT, "-C", saved[1], "worktree", "add", "-q", "--detach", wt, repo.commits[cid]["sha"]], env=repo.env, capture_output=True)
+                if rr.returncode != 0:
+                    continue
+                repo.head, repo.path = ("detached", cid), wt
+                st["chain_linked_worktrees"] = st.get("chain_linked_worktrees", 0) + 1
+                observe()
+        finally:
+            repo.head, repo.path = saved
     except gitmodel.GitError as e:
         raise core.Inconclusive("chain generator: %s" % e)
     finally:
